@@ -302,8 +302,7 @@ def run(b, ps, tier, seed):
     }
     return {"violations": violations, "known": [], "coverage": cov,
             "assumptions": [
-                "premise equal_terminates_stmt: EqualType returns on well-formed types in a well-formed environment (C08's termination theorem; an explicit premise of the C09 theorems, exercised here by the eq-coprime / eq-two-recursive / many-defs inputs)",
-                "that AddMissingModalities returns (second Section hypothesis of proofs/TcTotal.v) is proved in proofs/TcInferFuel.v and instantiated",
+                "the two Section hypotheses of proofs/TcTotal.v (EqualType returns; AddMissingModalities returns) are proved for the model's current definitions in proofs/TcEqFuel.v and proofs/TcInferFuel.v and instantiated: the property theorems have no premise. If TcDeps.equal_type is replaced, C09_tc_total_given carries the premise explicitly",
                 "the worker's computation is abstracted to its result in the protocol LTS; Go's scheduler is any interleaving of the LTS steps",
                 "a Go stack overflow is modelled as Hang (fuel exhaustion); real stack depth limits (1 GB) are not modelled: deep inputs are exercised by the tie only",
                 "post-return observation lasts %d ms per text in this tier" % wait_ms],
